@@ -11,7 +11,7 @@ for d in $MUT/C*/out/*/; do
     name="${prop}-${SUF}${x}"
     grep -q "name=$name " $RES && continue
     extra=""
-    case "$name" in C14-2a|C14-2b) extra="C12";; C10-2b) extra="C19";; C10-3b) extra="C09";; C15-3b) extra="C16";; C17-3b) extra="C20";; C05-3b) extra="C18 C19";; C05-3a) extra="C19";; C14-3b|C14-3c) extra="C12";; C19-3a) extra="C14";; C07-4b) extra="C06 C19";; C16-4b) extra="C19";; C01-4a) extra="C06 C14";; C06-4b) extra="C14 C01";; C11-4b) extra="C04 C15";; C19-4a) extra="C07";; C18-4b) extra="C19 C05";; C05-4a) extra="C19 C18";; C05-4b) extra="C18";; C02-4a) extra="C06";; C20-4a) extra="C17";; C06-4a) extra="C01 C13";; C02-5b|C17-5a|C18-5b|C13-5b) extra="C19";; C14-5b) extra="C12";; C11-5b) extra="C04";; C06-5a) extra="C01";; C01-5a) extra="C06";; C01-5b) extra="C19 C13";; C16-5a|C16-5b) extra="C15";; C13-6b|C09-6a|C10-6a|C05-6b|C03-6b) extra="C19";; esac
+    case "$name" in C14-2a|C14-2b) extra="C12";; C10-2b) extra="C19";; C10-3b) extra="C09";; C15-3b) extra="C16";; C17-3b) extra="C20";; C05-3b) extra="C18 C19";; C05-3a) extra="C19";; C14-3b|C14-3c) extra="C12";; C19-3a) extra="C14";; C07-4b) extra="C06 C19";; C16-4b) extra="C19";; C01-4a) extra="C06 C14";; C06-4b) extra="C14 C01";; C11-4b) extra="C04 C15";; C19-4a) extra="C07";; C18-4b) extra="C19 C05";; C05-4a) extra="C19 C18";; C05-4b) extra="C18";; C02-4a) extra="C06";; C20-4a) extra="C17";; C06-4a) extra="C01 C13";; C02-5b|C17-5a|C18-5b|C13-5b) extra="C19";; C14-5b) extra="C12";; C11-5b) extra="C04";; C06-5a) extra="C01";; C01-5a) extra="C06";; C01-5b) extra="C19 C13";; C16-5a|C16-5b) extra="C15";; C13-6b|C09-6a|C10-6a|C05-6b|C03-6b) extra="C19";; C18-7b|C07-7b|C04-7b) extra="C19";; C19-7b) extra="C05";; C01-7a) extra="C14 C06";; C01-7b) extra="C12 C13";; esac
     /verif/tools/seed_confirm.sh "$d" "$prop" "$name" $extra >> $RES 2>&1
 done
 echo "ALLDONE $(date)" >> $RES
